@@ -709,6 +709,54 @@ func (e *env) spec() mc.Spec {
 	}
 }
 
+// prefixWorld is a world that starts behind a fixed operation sequence (applied through the ordinary
+// Apply, so that oracle, model and minimisation see it) and in which some operations are not offered.
+type prefixWorld struct {
+	*world
+	pend    []mc.Violation
+	exclude func(op) bool
+}
+
+func (p *prefixWorld) Enabled(oi int) bool {
+	return p.world.Enabled(oi) && (p.exclude == nil || !p.exclude(p.e.ops[oi]))
+}
+
+func (p *prefixWorld) Apply(oi int) []mc.Violation {
+	if len(p.pend) != 0 {
+		return p.pend // the prefix itself failed: reported under the first operation tried behind it
+	}
+	return p.world.Apply(oi)
+}
+
+// prefixSpec explores what follows the named operations.
+func (e *env) prefixSpec(prefix []string, exclude func(op) bool) mc.Spec {
+	var idx []int
+	for _, n := range prefix {
+		found := -1
+		for i, o := range e.ops {
+			if o.name == n {
+				found = i
+			}
+		}
+		if found < 0 {
+			mc.Fatal("c15: no operation %q", n)
+		}
+		idx = append(idx, found)
+	}
+	sp := e.spec()
+	sp.New = func() mc.World {
+		pw := &prefixWorld{world: e.newWorld(), exclude: exclude}
+		for _, oi := range idx {
+			if v := pw.world.Apply(oi); len(v) != 0 {
+				pw.pend = v
+				break
+			}
+		}
+		return pw
+	}
+	return sp
+}
+
 func Run(tier string) int {
 	rep := mc.NewReporter("C15", tier, "model_checking")
 	rep.Driver = "c15"
@@ -790,6 +838,54 @@ func Run(tier string) int {
 		st.Transitions += lst.Transitions
 	}
 	var bigSt *mc.BFSStats
+	if tier != "thorough" {
+		// run-time compaction in the quick tier: the exploration starts behind operation sequences that leave
+		// 16 MiB of invalidated records in the file (so that the next store compacts it while the object is
+		// in use), with a live record before / behind the freed one, and goes three (two) operations on
+		be := newEnv(rep, bigLists(), 0)
+		be.stats, be.tally = stats, e.tally
+		be.deadline = time.Now().Add(60 * time.Second)
+		noBig := func(o op) bool { return o.kind == "store" && be.lists[o.list].big }
+		var cst mc.BFSStats
+		var names []string
+		for _, pf := range []struct {
+			ops   []string
+			depth int
+		}{
+			{[]string{"store(0,big)", "invalidate(0)"}, 3},
+			{[]string{"store(0,big)", "store(1,runs-ct)", "invalidate(0)"}, 3},
+			{[]string{"store(1,c1)", "store(0,big)", "invalidate(0)"}, 2},
+			{[]string{"store(1,c1)", "store(0,big)", "store(2,runs-ct)", "invalidate(0,1)"}, 2},
+		} {
+			bst := mc.BFS(be.prefixSpec(pf.ops, noBig), pf.depth, 0, be.deadline, rep)
+			names = append(names, fmt.Sprintf("[%s] + %d", strings.Join(pf.ops, " ; "), pf.depth))
+			cst.States += bst.States
+			cst.Transitions += bst.Transitions
+			if bst.CapHit != "" {
+				cst.CapHit = bst.CapHit
+			}
+		}
+		be.cleanup()
+		bigSt = &cst
+		rep.Coverage["compaction_prefixes"] = names
+		rep.Coverage["compaction_states"] = cst.States
+		rep.Coverage["compaction_transitions"] = cst.Transitions
+		rep.Coverage["runtime_compactions_observed"] = atomic.LoadInt64(&stats.runtimeCompactions)
+		if cst.CapHit != "" {
+			rep.Coverage["exhaustive"] = false
+			caps, _ := rep.Coverage["caps_hit"].([]string)
+			rep.Coverage["caps_hit"] = append(caps, "compaction exploration: "+cst.CapHit)
+		}
+		for _, k := range []string{"states", "transitions", "traces_validated_against_impl", "evaluations"} {
+			if v, ok := rep.Coverage[k].(int64); ok {
+				add := cst.Transitions
+				if k == "states" {
+					add = cst.States
+				}
+				rep.Coverage[k] = v + add
+			}
+		}
+	}
 	if tier == "thorough" {
 		// run-time compaction needs 16 MiB of invalidated records: separate, smaller alphabet
 		be := newEnv(rep, bigLists(), 2)
